@@ -3,6 +3,16 @@
 #include "sched.hpp"
 #include <cmath>
 
+// C12 growth clause. "Geometric" = every growth step multiplies the capacity by a constant factor > 1, so n insertions cost
+// about log_factor(n) reallocations. The budget is computed for the factor the build is configured with (CBOR_BUFFER_GROWTH);
+// an implementation all of whose observed steps (on tables of 64 bytes and more) multiply by at least 1.2 is geometric with
+// that smaller factor and is given the budget of the factor it actually shows - any step below 1.2 gets the configured one.
+static uint64_t growth_budget(uint64_t n, double min_ratio) {
+  double G = impl_growth(); unsigned slack = 2;
+  if (min_ratio < G && min_ratio >= 1.2) { G = min_ratio; slack = 6; }
+  return (uint64_t)std::ceil(std::log((double)std::max<uint64_t>(n, 1)) / std::log(G) - 1e-9) + slack;
+}
+
 static const char* OPN[] = {"new_int", "new_float", "new_ctrl", "new_bstr", "new_tstr", "new_indef_bstr", "new_indef_tstr", "new_def_array", "new_indef_array", "new_def_map", "new_indef_map", "new_tag", "build_tag",
                             "push", "push_many", "set", "replace", "get", "map_add", "add_chunk", "tag_set", "tag_item", "copy", "load", "load_raw", "serialize_alloc", "serialize", "size", "describe",
                             "incref", "decref", "intermediate_decref", "setval", "mark", "getters", "reset_handle", "big"};
@@ -444,7 +454,7 @@ OpResult Hist::run_op(const HOp& op0) {
         S.end(); R.executed = true; R.requests = S.w.requests; R.refused = S.refused; R.reported_failure = !last_ok;
         for (uint64_t t = 0; t < done; t++) add_edge(arr, x);
         if (move && done) { nodes[x].ext--; pool.erase(pool.begin() + xi); }
-        if (done) { nodes[arr].inserts += done; nodes[arr].reallocs += S.w.reallocs - S.w.refused; inserts_ok += done; }
+        if (done) { nodes[arr].inserts += done; nodes[arr].reallocs += S.w.reallocs - S.w.refused; nodes[arr].min_growth = std::min(nodes[arr].min_growth, S.w.min_growth); inserts_ok += done; }
         if (expect_room_fail) refusals_capacity++;
         S.table_change(tb, table_block(nodes[arr])); S.account();
         if (!last_ok && done == 0) S.unchanged_after_refusal();
@@ -471,7 +481,7 @@ OpResult Hist::run_op(const HOp& op0) {
         S.account();
       }
       // growth clause: logarithmic number of reallocations
-      { HNode& N = nodes[arr]; if (!N.definite && N.inserts > 0) { double G = impl_growth(); uint64_t budget = (uint64_t)std::ceil(std::log((double)std::max<uint64_t>(N.inserts, 1)) / std::log(G) - 1e-9) + 2; if (N.reallocs > budget) fail("C12", "growth-not-geometric", S.ctx + fmt(": %llu reallocations for %llu insertions (budget %llu)", (unsigned long long)N.reallocs, (unsigned long long)N.inserts, (unsigned long long)budget)); } }
+      { HNode& N = nodes[arr]; if (!N.definite && N.inserts > 0) { uint64_t budget = growth_budget(N.inserts, N.min_growth); if (N.reallocs > budget) fail("C12", "growth-not-geometric", S.ctx + fmt(": %llu reallocations for %llu insertions (budget %llu)", (unsigned long long)N.reallocs, (unsigned long long)N.inserts, (unsigned long long)budget)); } }
       verify(nodes[arr], S.props.c_str(), S.ctx);
       break;
     }
@@ -502,12 +512,12 @@ OpResult Hist::run_op(const HOp& op0) {
       bool expect_ok = room && S.w.refused == 0;
       if (ok != expect_ok) { fail(S.refused ? "C12,C06" : "C12", ok ? "insert-accepted-wrongly" : "insert-refused-wrongly", S.ctx + fmt(": map_add returned %d; size %zu capacity %llu definite %d refused %d", (int)ok, size, (unsigned long long)Mn.capacity, (int)Mn.definite, (int)(S.w.refused > 0))); return R; }
       if (ok) {
-        add_edge(m, k); add_edge(m, v); nodes[m].inserts++; nodes[m].reallocs += S.w.reallocs; inserts_ok++;
+        add_edge(m, k); add_edge(m, v); nodes[m].inserts++; nodes[m].reallocs += S.w.reallocs; nodes[m].min_growth = std::min(nodes[m].min_growth, S.w.min_growth); inserts_ok++;
         if (mk) nodes[k].ext--; if (mv) nodes[v].ext--;
         std::vector<int> gone; if (mk) gone.push_back(ki); if (mv) gone.push_back(vi); std::sort(gone.rbegin(), gone.rend()); for (int gi : gone) pool.erase(pool.begin() + gi);
       } else if (!room) refusals_capacity++;
       S.table_change(tb, table_block(nodes[m])); S.account(); if (!ok) S.unchanged_after_refusal();
-      { HNode& N = nodes[m]; if (!N.definite && N.inserts > 0) { double G = impl_growth(); uint64_t budget = (uint64_t)std::ceil(std::log((double)std::max<uint64_t>(N.inserts, 1)) / std::log(G) - 1e-9) + 2; if (N.reallocs > budget) fail("C12", "growth-not-geometric", S.ctx + fmt(": %llu reallocations for %llu insertions", (unsigned long long)N.reallocs, (unsigned long long)N.inserts)); } }
+      { HNode& N = nodes[m]; if (!N.definite && N.inserts > 0) { uint64_t budget = growth_budget(N.inserts, N.min_growth); if (N.reallocs > budget) fail("C12", "growth-not-geometric", S.ctx + fmt(": %llu reallocations for %llu insertions", (unsigned long long)N.reallocs, (unsigned long long)N.inserts)); } }
       verify(nodes[m], S.props.c_str(), S.ctx);
       break;
     }
@@ -521,9 +531,9 @@ OpResult Hist::run_op(const HOp& op0) {
       S.end(); R.executed = true; R.requests = S.w.requests; R.refused = S.refused; R.reported_failure = !ok;
       bool expect_ok = S.w.refused == 0;
       if (ok != expect_ok) { fail(S.refused ? "C12,C06" : "C12", ok ? "insert-accepted-wrongly" : "insert-refused-wrongly", S.ctx + fmt(": add_chunk returned %d (allocation refused: %d)", (int)ok, (int)(S.w.refused > 0))); return R; }
-      if (ok) { add_edge(s, c); nodes[s].inserts++; nodes[s].reallocs += S.w.reallocs; inserts_ok++; }
+      if (ok) { add_edge(s, c); nodes[s].inserts++; nodes[s].reallocs += S.w.reallocs; nodes[s].min_growth = std::min(nodes[s].min_growth, S.w.min_growth); inserts_ok++; }
       S.table_change(tb, table_block(nodes[s])); S.account(); if (!ok) S.unchanged_after_refusal();
-      { HNode& N = nodes[s]; if (N.inserts > 0) { double G = impl_growth(); uint64_t budget = (uint64_t)std::ceil(std::log((double)std::max<uint64_t>(N.inserts, 1)) / std::log(G) - 1e-9) + 2; if (N.reallocs > budget) fail("C12", "growth-not-geometric", S.ctx + fmt(": %llu reallocations for %llu chunks", (unsigned long long)N.reallocs, (unsigned long long)N.inserts)); } }
+      { HNode& N = nodes[s]; if (N.inserts > 0) { uint64_t budget = growth_budget(N.inserts, N.min_growth); if (N.reallocs > budget) fail("C12", "growth-not-geometric", S.ctx + fmt(": %llu reallocations for %llu chunks", (unsigned long long)N.reallocs, (unsigned long long)N.inserts)); } }
       verify(nodes[s], S.props.c_str(), S.ctx);
       break;
     }
@@ -757,7 +767,7 @@ OpResult Hist::run_op(const HOp& op0) {
             if (ok) done++;
           }
           OpWindow w = sa_end(); R.executed = true; R.requests = w.requests;
-          double G = impl_growth(); uint64_t budget = (uint64_t)std::ceil(std::log((double)n) / std::log(G) - 1e-9) + 2;
+          uint64_t budget = growth_budget(n, w.min_growth);
           if (!ok || done != n) fail("C12", "insert-refused-wrongly", S.ctx + fmt(": insertion %llu of %llu into an indefinite container was refused although no allocation was", (unsigned long long)done, (unsigned long long)n));
           else if (w.reallocs > budget) fail("C12", "growth-not-geometric", S.ctx + fmt(": %llu reallocations for %llu insertions (budget %llu)", (unsigned long long)w.reallocs, (unsigned long long)n, (unsigned long long)budget));
           else {
